@@ -353,17 +353,18 @@ def writeGroObj (toDy : α → Option PyStr.Dy) (h : Heap α) (o : Obj) (fname :
 /-! ### ill-typed values for two setters -/
 
 /-- `obj.atoms_ids = [x, …]` with `n` elements that are not `int`s (floats, strings): the length test comes first
-    (`IndexError`), then `all(isinstance(i, int) …)` (`TypeError`); nothing is assigned.  `len(self)` of a Molecule
+    (`IndexError`), then `all(isinstance(i, int) …)` (`TypeError`); nothing is assigned.  The EMPTY list given to an
+    object without atoms (a residue emptied by `remove_atom`) passes both tests — `all([])` — and assigns nothing.  `len(self)` of a Molecule
     is `len(self._each_atom_resid)`. -/
 def setIdsNonInt (h : Heap α) (o : Obj) (n : Nat) : Option PyErr :=
   match o with
   | .res r =>
     match h.res? r with
-    | some gs => if gs.length ≠ n then some .indexError else some .typeError
+    | some gs => if gs.length ≠ n then some .indexError else if n = 0 then none else some .typeError
     | none => some .internal
   | .mol m =>
     match molView h m with
-    | some v => if v.each.length ≠ n then some .indexError else some .typeError
+    | some v => if v.each.length ≠ n then some .indexError else if n = 0 then none else some .typeError
     | none => some .internal
   | _ => some .internal
 
